@@ -31,7 +31,7 @@ ASSUMES = [
     "snake_names_distinct: the transport property names (snake-cased transport-safe RPC names, legacy IAM names, mixin names) "
     "of a service are pairwise distinct (DESIGN section 9 no. 11; refuted without it)",
     "package, service and RPC names contain no '/' (protobuf identifiers)",
-    "coerce_equiv: the hypotheses of C05 for the asyncio cross-package constructor (flattened keys top-level)",
+    "coerce_equiv: flattened keys distinct; cross-package mappings hold no maps (true of every _fields_mapping result)",
     "methods made internal by selective generation and extended-operation (compute) services are not modelled",
 ]
 IMPORTS = "From GV Require Import Model.Flatten Model.Stubs."
@@ -61,7 +61,7 @@ def make_api(r, shape, *, add_iam=False, mixins=False, collide=False):
     svc = api.main.service(r.choice(["Library", "Catalog", "WidgetAdmin", "DataHub2"]), host=api.host)
     idx0 = U.Index(api.request())
     names = r.sample(["GetThing", "MakeThing", "FindThing", "PutThing", "ScanThing", "TellThing", "MarkThing", "DropThing"], 5) \
-        + r.sample(TRICKY, 3)
+        + ["Import", "CreateChannel"] + r.sample([t for t in TRICKY if t not in ("Import", "CreateChannel", "Return", "Class")], 2)
     if collide:
         names = ["GetBook", "GetBOOK", "FindThing"]
     kinds = [(False, False), (False, True), (True, False), (True, True)]
@@ -75,6 +75,13 @@ def make_api(r, shape, *, add_iam=False, mixins=False, collide=False):
         sigs = pick_sigs(r, idx0, rq.fqn, use_other_req, None, avoid_defects=True) if (not cs and r.random() < 0.4) else []
         svc.rpc(nm, rq.fqn, rs, cs=cs, ss=ss, sigs=sigs)
     if not collide:
+        # requests from a dependency package with the response in the API's package: google.protobuf.Empty, and (dep shape)
+        # a plain protobuf message of the dependency
+        svc.rpc("PingThing", U.EMPTY, main_resp.fqn)
+        svc.rpc("Return", U.EMPTY, main_resp.fqn, ss=True)
+        if shape == "dep":
+            svc.rpc("PullThing", other_req.fqn, main_resp.fqn, sigs=["name"])
+            svc.rpc("Class", other_req.fqn, main_resp.fqn, cs=True)
         # a paged and a long-running RPC (their wrappers are C07's / C08's business; here: which entry they call, what they pass)
         lreq = api.main.message("ListWidgetsRequest")
         lreq.field("parent", 1, "string").field("page_size", 2, "int32").field("page_token", 3, "string")
@@ -490,6 +497,9 @@ class ApiRun:
                               "request-" + ("own-package" if self.idx.package_of(m.input_type) == fp.package else
                                             "proto-plus-subpackage" if self.idx.proto_plus_pkg(self.idx.package_of(m.input_type)) else "pb2-dependency"),
                               "response-" + ("pb2" if not self.idx.proto_plus_pkg(self.idx.package_of(m.output_type)) else "proto-plus")]
+                     + (["dependency-request+api-response"] if (not self.idx.proto_plus_pkg(self.idx.package_of(m.input_type))
+                                                                   and self.idx.package_of(m.output_type) == fp.package) else [])
+                     + (["keyword-or-unsafe-rpc-name"] if self.facts["services"][s.name]["methods"][j]["safe_snake"].endswith("_") else [])
                      + (["safe-name-suffix"] if self.facts["services"][s.name]["methods"][j]["safe_snake"].endswith("_") else []))
             if not o["ok"] and o.get("stage") == "import":
                 ctx.violation(f"emitted package does not import: {o['error']['exception']}: {o['error']['message'][:200]}", case, None)
@@ -497,9 +507,6 @@ class ApiRun:
             known = None
             if sum(1 for x in s.method if U.snake(x.name) == U.snake(m.name)) > 1:
                 known = "stubs.rpc_names_equal_after_snake_case"      # DESIGN section 9 no. 11
-            flat = U.Index.signatures(m)
-            if known is None and variant == "Async" and self.idx.package_of(m.input_type) != fp.package and any("." in p for sg in flat for p in sg.split(",")):
-                known = "flatten.async_cross_pkg_dotted_ctor"     # reported under C05
             # ---- observed, in model terms
             npath = o["calls"][0]["path"] if len(o["calls"]) == 1 else None
             nreq = len(o["calls"][0]["requests"]) if len(o["calls"]) == 1 else -1
@@ -638,7 +645,7 @@ class ApiRun:
             self.defs.append(
                 f"Definition {name} (v : variant) : option block := match assoc {coq.s(rq)} {sch} with "
                 f"Some m => match fields_mapping {sch} m {coq.b(cross)} {coq.slist(U.Index.signatures(m))} with "
-                f"Some f => Some (emit v f {coq.b(cross)} (m_proto_plus m) (ctor_fields m)) | None => None end | None => None end.")
+                f"Some f => Some (emit v f {coq.b(cross)} (m_proto_plus m)) | None => None end | None => None end.")
         return f"({name} {variant})"
 
 
@@ -727,16 +734,35 @@ def snake_cases(ctx):
                "; ".join((failing + errors)[:8]), "T2")
 
 
+CORPUS = os.path.join(env.VERIF, "corpus", "C03")
+
+
+def write_corpus():
+    """witnesses: legacy IAM methods (DESIGN section 9 no. 3, repaired in /repo), mixins, RPC names equal after snake-casing
+    (no. 11, known finding), a cross-package request with a dotted flattened path called without a request (repaired: 14fc9e4)"""
+    from .c05 import witness_api
+    os.makedirs(CORPUS, exist_ok=True)
+    items = []
+    req, _ = make_api(env.rng("C03-w", 1), "same", add_iam=True)
+    items.append(("w_add_iam", req, 1, None))
+    req, y = make_api(env.rng("C03-w", 2), "same", mixins=True)
+    items.append(("w_mixins", req, 2, y))
+    req, _ = make_api(env.rng("C03-w", 3), "same", collide=True)
+    items.append(("w_collide", req, 3, None))
+    items.append(("w_cross_dotted", witness_api("cross_dotted"), 0, None))
+    req, _ = make_api(env.rng("C03-w", 4), "dep")
+    items.append(("w_dep_request", req, 4, None))
+    for tag, req, ri, y in items:
+        with open(os.path.join(CORPUS, tag + ".json"), "w") as f:
+            json.dump({"tag": tag, "request_b64": apigen.req_b64(req), "rindex": ri, "service_yaml": y}, f, indent=1)
+
+
 def plan(ctx):
     jobs = []
-    r0 = env.rng("C03-api", 0)
-    # witnesses first: legacy IAM methods (section 9 no. 3), RPC names equal after snake-casing (no. 11), mixins
-    req, _ = make_api(env.rng("C03-w", 1), "same", add_iam=True)
-    jobs.append(("w_add_iam", req, 1, None))
-    req, y = make_api(env.rng("C03-w", 2), "same", mixins=True)
-    jobs.append(("w_mixins", req, 2, y))
-    req, _ = make_api(env.rng("C03-w", 3), "same", collide=True)
-    jobs.append(("w_collide", req, 3, None))
+    for name in sorted(os.listdir(CORPUS)) if os.path.isdir(CORPUS) else []:
+        c = json.load(open(os.path.join(CORPUS, name)))
+        jobs.append((c["tag"], apigen.req_from_b64(c["request_b64"]), c.get("rindex", 0), c.get("service_yaml")))
+    ctx.oblige("corpus: the 5 witness APIs of corpus/C03 are present", len(jobs) >= 5, f"{len(jobs)} found", "build")
     n = ctx.n(7, 90)
     i = made = 0
     while made < n and i < 4 * n:
